@@ -35,18 +35,22 @@ TRUSTED = ["harness/synct/c_clientconn_test.go (peer, snapshot)", "lean/GrpcMode
 RULE = ("directed: k in {0,1,2,3,5} open streams x GOAWAY id in {0, first, middle, last, above, 2^31-1, even} x optional second GOAWAY "
         "{smaller, equal, larger, even, 0, max}, new RPCs before/after, streams finishing by trailers/RST/cancel; two-phase graceful "
         "shutdown; GracefulClose then GOAWAY; NewStream blocked on MAX_CONCURRENT_STREAMS released by GOAWAY/stream end/SETTINGS/"
-        "deadline/cancel/Close; plus random op sequences (frames of every type incl. malformed, CONTINUATION, app ops, sleeps). "
+        "deadline/cancel/Close; hold windows (the peer stops reading, loopy stalls, frames reach streams that are done but still in "
+        "activeStreams; Close with a stalled loopy: 5 s timer); plus random op sequences (frames of every type incl. malformed, CONTINUATION, app ops, sleeps). "
         "A case is non-trivial if a GOAWAY frame was delivered while at least one stream was open; distinct = distinct op list.")
 
 
 def gen(rng, tier):
-    n = {"quick": 500, "thorough": 12000, "search": 4000}[tier]
+    n = {"quick": 350, "thorough": 12000, "search": 4000}[tier]
     reps = {"quick": 2, "thorough": 20, "search": 8}[tier]
     for _ in range(reps):
         for ops, tag in g.directed_goaway(rng):
             yield Case("s_goaway", ops, tag)
+    for _ in range(max(1, reps // 2)):
+        for ops, tag in g.directed_hold(rng):
+            yield Case("s_goaway", ops, tag)
     for i in range(n):
-        b = g.Builder(rng, mcs=(rng.choice([1, 2, 3]) if rng.random() < 0.2 else None))
+        b = g.Builder(rng, mcs=(rng.choice([1, 2, 3]) if rng.random() < 0.2 else None), allow_hold=rng.random() < 0.4)
         for _ in range(rng.randrange(0, 5)):
             b.new()
         b.random_tail(rng.randrange(0, 8))
